@@ -163,8 +163,16 @@ TEXT_ALPHA = ['a', 'b', 'c', ' ', '\n', '\n', '\n', '\r\n', '\r', 'é', '—', '
 BYTE_ALPHA = [b'a', b'b', b'\n', b'\n', b'\r\n', b'\r', b'\x00', b'\xff', b'xyz']
 
 
+# code points at the edges of the UTF-8 length classes and of its byte ranges (lead bytes C2/DF/E0/EF/F0/F4,
+# continuation bytes 80 and BF): what a hand-written byte-level shortcut gets wrong
+TEXT_EDGES = ['\x7f', '\x80', '\xbf', '\xff', '\u07ff', '\u0800', '\ufeff', '\ufffd', '\uffff', '\U00010000', '\U0010ffff',
+              '\u0fff', '\u1000', '\U0003ffff', '\U00040000']
+
+
 def _chunk(rng, text, n):
     if text:
+        if rng.random() < 0.15:
+            return ''.join(rng.choice(TEXT_EDGES) if rng.random() < 0.4 else rng.choice(TEXT_ALPHA) for _ in range(n))
         return ''.join(rng.choice(TEXT_ALPHA) for _ in range(n))
     return b''.join(rng.choice(BYTE_ALPHA) for _ in range(n)).hex()
 
@@ -200,6 +208,8 @@ def gen_case(rng, tier):
             # several appending writes through writelines(), from a list or from a one-shot generator
             ops.append(['writelines', [_chunk(rng, text, rng.choice([0, 1, 3, 7])) for _ in range(rng.randint(0, 4))],
                         rng.choice(['list', 'gen', 'tuple', 'list', 'gen', 'tuple', 'bad_last', 'gen_raises'])])
+            if rng.random() < 0.2:
+                ops[-1] = ops[-1][:2] + ['file_src', rng.choice([1, 1 << 40]), rng.choice([0, 1, 1, 2])]
         elif r < 0.28 or not ops:
             n = rng.choice([0, 1, 2, 3, 5, 9, 17]) if rng.random() < 0.9 else rng.randint(20, 60)
             ops.append(['write', _chunk(rng, text, n)])
@@ -250,6 +260,9 @@ def gen_case(rng, tier):
         # fault injection: the disk is full for the first physical write of the temporary file (one-shot)
         replicas.append({'max_size': rng.choice([rng.randint(2, 40), 5, 9]), 'bufsize': rng.choice([1, 8, 64, 8192]),
                          'roll_at': rng.choice([None, None, rng.randint(0, nops)]), 'roll_how': 'rollover', 'enospc': True})
+    if any(rc.get('enospc') for rc in replicas):
+        # (the faulted replica reasons about the items of a writelines() one by one)
+        ops = [(op[:2] + ['list']) if (op[0] == 'writelines' and op[2] == 'file_src') else op for op in ops]
     return {'mode': 'text' if text else 'bytes', 'ops': ops, 'replicas': replicas,
             'chunk': 21333 if nops and ops[0][0] == 'write' and len(ops[0][1]) > 20000 else rng.choice([21333, 21333, 7, 3]),
             'getvalue_every_step': rng.random() < 0.3}
@@ -340,6 +353,22 @@ def _do(f, op, text, ref_len):
             return ('ok', f.write(data))
         if name == 'writelines':
             items = [x if text else bytes.fromhex(x) for x in op[1]]
+            if op[2] == 'file_src':
+                # the argument is another file object of the same family, part of which was read already: like any
+                # iterable of lines it contributes what is left of it, and is left at its end
+                if isinstance(f, (io.BytesIO, io.StringIO)):
+                    src = io.StringIO() if text else io.BytesIO()
+                else:
+                    src = type(f)(max_size=op[3])
+                for x in items:
+                    src.write(x)
+                src.seek(0)
+                for _ in range(op[4]):
+                    src.readline()
+                f.writelines(src)
+                pos = src.tell()
+                src.close()
+                return ('ok', ('source left at', pos))
             if op[2] in ('bad_last', 'gen_raises'):
                 # an argument that fails part-way: like io, the lines before the failure are written
                 if op[2] == 'bad_last':
@@ -557,10 +586,10 @@ def run_case(case):
                     rp['rolled_at'] = i
                     if i > 0:
                         out.probe('rollover_mid_history')
-                if name == 'writelines' and op[2] in ('bad_last', 'gen_raises'):
+                if name == 'writelines' and op[2] in ('bad_last', 'gen_raises', 'file_src'):
                     if got != want:
                         return _fail(out, log, 'spooled-diverges', i, case, ri, op, got, want, steps)
-                    out.probe('writelines_argument_fails_part_way')
+                    out.probe('writelines_from_another_file' if op[2] == 'file_src' else 'writelines_argument_fails_part_way')
                 elif name in ('write', 'writelines'):
                     if got[0] != 'ok':
                         return _fail(out, log, 'spooled-diverges', i, case, ri, op, got, want, steps)
